@@ -255,6 +255,79 @@ def build_h3(N):
     return b
 
 
+# ------------------------------------------------------------------------------------------------ h5
+def exec_stub_err(tr, c):
+    """executor.execute_incarnation -> ghost: the attempt reads the (abstract) state version once, somewhere during the
+    attempt, and fails with a solver-chosen error class; it may or may not report estimate blockers."""
+    d = c.dest()
+    tr.emit("__CPROVER_atomic_begin(); seen_version = x_version; attempt_started = 1; __CPROVER_atomic_end();")
+    res = d.node.f("result")
+    acc = d.node.f("accesses")
+    erri = res.vindex("Err")
+    e = res.variants[erri][1].fields[0]
+    tr.emit(f"{tr.lv(Loc(res.discr, d.idxs))} = {erri};")
+    tr.emit(f"{tr.lv(Loc(e.discr, d.idxs))} = err_invalid ? {e.vindex('Transaction')} : {e.vindex('Custom')};")
+    tr.emit(f"{tr.lv(Loc(e.variants[e.vindex('Transaction')][1].fields[0].fields[0], d.idxs))} = 9;")
+    for nm in ("read_set", "write_set", "blocking_txs"):
+        n = acc.f(nm)
+        p = n.f("present")
+        for k in range(p.cap):
+            tr.emit(f"{p.elem.name}{hz.sub(d.idxs + [str(k)])} = 0;")
+    bt = acc.f("blocking_txs").f("present")
+    tr.emit(f"if (blocked_on) {{ {bt.elem.name}{hz.sub(d.idxs + ['0'])} = 1; }}")
+    tr.emit(f"{tr.lv(Loc(acc.f('blocked_by_beneficiary'), d.idxs))} = 0;")
+
+
+def build_h5(N=2):
+    def b(tr):
+        H = hz.Harness(tr, "c04_h5")
+        S = H.shared("S", "Scheduler<DB>")
+        sc.freeze_sched(H, S, N)
+        H.cvar("x_version", "unsigned char"); H.cvar("seen_version", "unsigned char"); H.cvar("attempt_started", "_Bool")
+        H.param("err_invalid", "_Bool"); H.param("blocked_on", "_Bool")
+        H.c("err_invalid = nondet_bool(); blocked_on = nondet_bool(); x_version = 0; seen_version = 99; attempt_started = 0;")
+        sc.init_sched(H, S, N)
+        sc.init_ctx(H, S, N)
+        sc.init_tx_tables(H, S, N, L=2)
+        t = 1
+        # tx 0 executed once and validated (Unconfirmed, finalised); tx 1 is claimed for its first incarnation
+        H.c(f"{H.lv(S, 'tx_states.e.data.status.d', [0])} = {H.variant(H.nav(S, 'tx_states.e.data.status'), '', 'Finality')}; {H.lv(S, 'tx_states.e.data.incarnation', [0])} = 1;")
+        H.c(f"{H.lv(S, 'tx_states.e.data.status.d', [t])} = {H.variant(H.nav(S, 'tx_states.e.data.status'), '', 'Executing')}; {H.lv(S, 'tx_states.e.data.incarnation', [t])} = 1;")
+        H.c(f"{H.lv(S, 'scheduler_ctx.finality')} = 1; {H.lv(S, 'scheduler_ctx.validation')} = 1; {H.lv(S, 'tx_dependency.index')} = 2;")
+        H.c(f"{H.lv(S, 'scheduler_ctx.execution_frontier.executed.e', [0])} = 1; {H.lv(S, 'scheduler_ctx.execution_frontier.frontier')} = 1;")
+        H.c(f"{H.lv(S, 'tx_dependency.dependent_state.e.data.onboard', [0])} = 0; {H.lv(S, 'tx_dependency.dependent_state.e.data.onboard', [t])} = 0;")
+        w = H.thread("worker"); H.enter(w)
+        task = H.local("task", "Option<Task>")
+        H.call("Scheduler::execute_task", [H.ref(S), hz.VUnit(), hz.VUnit(), VAgg([H.val(str(t)), H.val("1")])], task)
+        cm = H.thread("pred_and_commit"); H.enter(cm)
+        # the predecessor's writes become visible (MV memory / committed state) strictly before its commit is published
+        H.c("__CPROVER_atomic_begin(); x_version = 1; __CPROVER_atomic_end();")
+        H.call("SchedulerContext::publish_commit", [H.ref(S, "scheduler_ctx"), H.val("1")])
+        H.call("TxDependency::commit", [H.ref(S, "tx_dependency"), H.val("0")])
+        H.post()
+        rv = H.nav(S, "abort_reason.val")
+        ab, rs, rd = H.lv(S, "abort"), H.lv(S, "abort_reason.set"), H.lv(rv, "d")
+        fatal = f"({ab} && {rs} && {rd} == {H.variant(rv, '', 'FatalEvmError')})"
+        fb = f"({ab} && {rs} && {rd} == {H.variant(rv, '', 'FallbackSequential')})"
+        H.assert_(f"!{fatal} || seen_version == 1",
+                  "stale-error-at-head: a fatal EVM error is only reported for an attempt that read the state left by its committed predecessors")
+        # a stale *invalid-transaction* verdict at the head only requests sequential fallback, which re-validates the transaction
+        # against committed state: harmless, hence not asserted.
+        H.assert_(f"!{fatal} || ({H.lv(rv, 'FatalEvmError.0')} == {t} && !err_invalid && !blocked_on)", "the fatal abort names the failing transaction and is not raised for an invalid / blocked attempt")
+        H.assert_(f"!{fb} || (err_invalid && !blocked_on)", "fallback is requested only for an unblocked invalid-transaction error")
+        H.assert_(f"!{ab} || {rs}", "an abort always records its reason")
+        # not aborted: the transaction must be re-offered (it waits behind its blocker or behind its own, now reached, commit boundary)
+        ds = "tx_dependency.dependent_state.e.data"
+        H.assert_(f"{ab} || blocked_on || ({H.lv(S, ds + '.onboard', [t])} && {H.lv(S, ds + '.dependency.d', [t])} == 0 && {H.lv(S, 'tx_dependency.index')} <= {t})",
+                  "an erroring attempt that does not abort is claimable again once the committed prefix has reached it (no orphan)")
+        H.assert_(f"{H.lv(S, 'tx_states.e.data.status.d', [t])} == {H.variant(H.nav(S, 'tx_states.e.data.status'), '', 'Conflict')}", "a failed attempt leaves the transaction in Conflict")
+        H.cover(f"{fatal}", "fatal abort reachable")
+        H.cover(f"{fb}", "fallback abort reachable")
+        H.cover(f"!{ab} && !blocked_on", "parked behind the commit boundary and released")
+        return H
+    return b
+
+
 def specs(tier):
     N = 3
     out = [
@@ -269,5 +342,11 @@ def specs(tier):
         Spec("h3_seq_suffix", build_h3(N), cfg=sc.cfg(N, loops={"Scheduler::execute_sequential_suffix": {"*": (N + 2, "assert")}}), unwind=N + 3, timeout=600,
              desc="real execute_sequential_suffix with a solver-chosen transact oracle (ok / invalid / database / custom / header error)",
              bounds={"n": N}),
+        Spec("h5_error_at_head", build_h5(2), cfg=sc.mv_cfg(2, L=2, stubs=dict(sc.bene_true_stubs(), **{
+                 "<impl ParallelTransactionExecutor as ParallelTransactionExecutor>::execute_incarnation": exec_stub_err})),
+             unwind=4, timeout=900,
+             desc="real execute_task (error branch) for tx 1 || predecessor publishes its write, then commit publication + "
+                  "TxDependency::commit; the attempt reads the abstract state version at a solver-chosen moment",
+             bounds={"n": 2, "threads": 2, "memory_model": "SC"}),
     ]
     return out
